@@ -4,7 +4,7 @@ from harness import *
 logging.basicConfig(level=logging.ERROR)
 
 async def fresh(chain):
-    d = tempfile.mkdtemp(prefix='fresh', dir='/tmp/exp')
+    d = tempfile.mkdtemp(prefix='fresh')
     env = make_env(d); db = DB(env); daemon = FakeDaemon(chain); await daemon.height()
     bp = BlockProcessor(env, db, daemon, Notifications())
     await sync(bp)
@@ -16,7 +16,7 @@ async def main():
     chain = Chain(1)
     for i in range(6): chain.add_block(2)
     hf, stf = await fresh(chain)
-    d = tempfile.mkdtemp(prefix='c06', dir='/tmp/exp')
+    d = tempfile.mkdtemp(prefix='c06')
     env = make_env(d)
     db = DB(env); daemon = FakeDaemon(chain); await daemon.height()
     bp = BlockProcessor(env, db, daemon, Notifications())
